@@ -315,6 +315,9 @@ def gen_equality(rng):
                         'sec': sec, 'key': rng.choice(['x-custom',
                                                        'encoding']),
                         'value': rng.choice(['v', 'latin-1', 7])})
+        elif k < 9 and rng.chance(0.5):
+            ops.append({'op': 'shift_diff', 'tree': 'T2',
+                        'change': rng.below(2), 'file': rng.below(2)})
         elif k < 9:
             ops.append({'op': 'add_change', 'tree': 'T2', 'attrs': {}})
         else:
